@@ -14,6 +14,7 @@ package store
 // the Lean model) and checked against independent Go bookkeeping (monitor).
 
 import (
+	"math"
 	"encoding/binary"
 	"errors"
 	"fmt"
@@ -73,6 +74,7 @@ type vfDReader struct {
 	sgen     int  // snapshot generation at open
 	closed   bool // closed by the harness
 	switched bool // the replication id was switched while it was open
+	crc      bool // opened with verifyCrc
 }
 
 // vfHist is the oracle's record of one cache generation (between two resets).
@@ -93,6 +95,8 @@ type vfSaved struct {
 }
 
 type vfDisk struct {
+	restarted bool  // a restart happened in this case (dimension counter: reopen after restart)
+	sticky    int64 // an offset re-used for writers / snapshots under DIFFERENT ids of one case (equal left offsets in two directories)
 	s       *vfutil.Session
 	r       *vfutil.Rand
 	root    string
@@ -231,6 +235,16 @@ func (d *vfDisk) query(probes []int64) {
 			d.s.Violate("valid-not-readable", fmt.Sprintf("IsValidOffset(%d)=true but no held bytes/snapshot cover it (held aof [%d,%d], snapshot have=%v left=%d done=%v live=%v)",
 				p, d.hbaseHeld(), d.right(), d.haveSnap, d.snapLeft, d.snapDone, d.snapLive), d.replay(map[string]interface{}{"offset": p}))
 		}
+	}
+	// ---- monitor (dimension audit): offset -1 (the callers' "nothing yet") is not a line of the
+	// model (offsets are naturals); it is valid only through an offered snapshot
+	if st.IsValidOffset(-1) {
+		d.s.Count("probe_minus_one_valid")
+		if !(d.haveSnap && (d.snapDone || d.snapLive)) {
+			d.s.Violate("valid-not-readable", "IsValidOffset(-1)=true but no snapshot is offered", d.replay(map[string]interface{}{"offset": -1}))
+		}
+	} else {
+		d.s.Count("probe_minus_one_invalid")
 	}
 	// ---- monitor: "a cached snapshot is offered only while all its bytes are present"
 	if rl != -1 || rs != -1 {
@@ -371,6 +385,10 @@ func (d *vfDisk) probes() []int64 {
 		add(r)
 	}
 	add(int64(d.r.Intn(3000)))
+	// dimension audit: the extreme offsets, every time
+	set[0] = struct{}{}
+	set[1] = struct{}{}
+	set[math.MaxInt64-1] = struct{}{}
 	out := make([]int64, 0, len(set))
 	for k := range set {
 		out = append(out, k)
@@ -405,7 +423,11 @@ func (d *vfDisk) opNew(logSize, maxSize int64) {
 	d.nextRid = 0
 	d.trace = nil
 	d.dead = false
-	d.emit(fmt.Sprintf("dnew %d %d", logSize, maxSize), "ok")
+	mm := maxSize
+	if mm < 0 {
+		mm = 0 // the configuration's "unlimited" is -1 (0 is replaced by the default there); the model's is 0
+	}
+	d.emit(fmt.Sprintf("dnew %d %d", logSize, mm), "ok")
 }
 
 var vfRoot0 string
@@ -578,6 +600,7 @@ func (d *vfDisk) opRestart() {
 	d.resetOracle()
 	d.rdbW, d.rdbSR = nil, nil
 	d.runId = ""
+	d.restarted = true
 	d.emit("drestart", "ok")
 }
 
@@ -729,8 +752,19 @@ func (d *vfDisk) opOpen(off int64, crc bool) {
 		}
 		return
 	}
-	vr := &vfDReader{rd: rd, isAof: rd.IsAof(), start: off, gen: d.gen, wgen: d.wgen, sgen: d.sgen, left: rd.Left(), size: rd.Size()}
+	vr := &vfDReader{rd: rd, isAof: rd.IsAof(), start: off, gen: d.gen, wgen: d.wgen, sgen: d.sgen, left: rd.Left(), size: rd.Size(), crc: crc}
 	d.readers[rid] = vr
+	kind := "stream"
+	if !vr.isAof {
+		kind = "snapshot"
+	}
+	d.s.Count(fmt.Sprintf("cfg_verifyCrc_%v_first_open_%s", crc, kind))
+	if d.restarted {
+		d.s.Count(fmt.Sprintf("cfg_verifyCrc_%v_open_after_restart_%s", crc, kind))
+	}
+	if vr.isAof && d.aofW != nil && rd.aof.left == d.st.lastSeg() {
+		d.s.Count(fmt.Sprintf("cfg_verifyCrc_%v_first_open_on_live_segment", crc))
+	}
 	if vr.isAof {
 		vr.pos = off
 		d.emit(op, fmt.Sprintf("aof %d", rd.Left()))
@@ -793,6 +827,10 @@ func (d *vfDisk) opReadX(rid int, n int, gcInWindow bool) {
 	buf := make([]byte, n)
 	var got int
 	var err error
+	var leftBefore int64
+	if vr.isAof {
+		leftBefore = vr.rd.aof.left
+	}
 	inval := d.invalidated(vr)
 	done := make(chan struct{})
 	go func() {
@@ -827,6 +865,13 @@ func (d *vfDisk) opReadX(rid int, n int, gcInWindow bool) {
 			d.dead = true // the case ends here: further reads of this history would stall the same way
 		}
 		return
+	}
+	if vr.isAof && vr.rd.aof.left != leftBefore {
+		if d.aofW != nil && vr.rd.aof.left == d.st.lastSeg() {
+			d.s.Count(fmt.Sprintf("cfg_verifyCrc_%v_follow_into_live", vr.crc))
+		} else {
+			d.s.Count(fmt.Sprintf("cfg_verifyCrc_%v_follow_into_closed", vr.crc))
+		}
 	}
 	if got > 0 {
 		b := buf[:got]
@@ -969,9 +1014,21 @@ func (d *vfDisk) step() bool {
 		})
 		add(2, func() { d.opAofClose(); d.s.Count("op_aof_close") })
 		add(2, func() { d.opAofWriter(d.right()); d.s.Count("op_aof_replace") })
+		add(2, func() {
+			// dimension audit: the writer replaced at the SAME offset while its live segment is EMPTY
+			// (replace, a reader opened at that very offset, replace again, then bytes)
+			d.opAofWriter(d.right())
+			d.observe()
+			d.opOpen(d.right(), r.Chance(1, 2))
+			d.observe()
+			d.opAofWriter(d.right())
+			d.observe()
+			d.opAofAppend(d.chunk(int(d.logSize) / 2))
+			d.s.Count("op_aof_replace_on_empty_live_with_reader")
+		})
 	} else if d.rdbW == nil {
 		add(12, func() {
-			off := int64(100 + r.Intn(900))
+			off := d.drawOff()
 			if d.haveHist {
 				off = d.right()
 			} else if d.haveSnap {
@@ -1003,7 +1060,11 @@ func (d *vfDisk) step() bool {
 			d.observe()
 		}
 		size := 1 + r.Intn(120)
-		d.opRdbWriter(int64(100+r.Intn(900)), int64(size))
+		if r.Chance(1, 10) {
+			size = 1 + r.Intn(2) // a snapshot of one / two bytes (complete after a single chunk)
+			d.s.Count("cfg_snapshot_size_1_or_2")
+		}
+		d.opRdbWriter(d.drawOff(), int64(size))
 		// two thirds of the snapshots carry a correct RDB checksum footer
 		d.snapPlan = r.Bytes(size)
 		if size >= 9 && r.Chance(2, 3) {
@@ -1013,7 +1074,19 @@ func (d *vfDisk) step() bool {
 		}
 		d.s.Count("op_rdb_writer")
 	})
-	add(8, func() { d.opGc(); d.s.Count("op_gc") })
+	add(8, func() {
+		for _, id := range live {
+			if !d.readers[id].isAof {
+				d.s.Count("op_gc_with_open_snapshot_reader")
+				break
+			}
+		}
+		if d.rdbW != nil {
+			d.s.Count("op_gc_with_live_snapshot_writer")
+		}
+		d.opGc()
+		d.s.Count("op_gc")
+	})
 	if len(live) < 6 {
 		add(8, func() {
 			var off int64
@@ -1039,6 +1112,10 @@ func (d *vfDisk) step() bool {
 		add(30, func() {
 			rid := vfutil.Pick(r, readable)
 			n := 1 + r.Intn(int(d.logSize)+8)
+			if r.Chance(1, 8) {
+				n = 1 // one-byte reads, forced (bufio never reads with an empty buffer: zero-byte reads are not drawn)
+				d.s.Count("cfg_read_one_byte")
+			}
 			d.opReadX(rid, n, r.Chance(1, 4))
 			d.s.Count("op_read")
 		})
@@ -1122,12 +1199,49 @@ func (d *vfDisk) step() bool {
 	return false
 }
 
+// drawOff: the offset of a writer / snapshot on a cache that holds nothing. Half of the draws
+// re-use the case's sticky offset, so that the directories of DIFFERENT ids hold segments and
+// snapshots with EQUAL left offsets (file names equal across directories).
+func (d *vfDisk) drawOff() int64 {
+	if d.r.Chance(1, 2) {
+		d.s.Count("cfg_offset_sticky_across_ids")
+		return d.sticky
+	}
+	d.s.Count("cfg_offset_fresh")
+	return int64(100 + d.r.Intn(900))
+}
+
 func (d *vfDisk) runCase(nops int) {
 	ls := int64(vfutil.Pick(d.r, []int{32, 48, 64, 128, 256}))
+	// dimension audit (session 5): LogSize AT the header size (every append rotates, a segment
+	// holds exactly one chunk) and one byte above it - forced, not left to chance
+	switch d.caseNo % 10 {
+	case 3:
+		ls = 16
+	case 7:
+		ls = 17
+	}
 	ms := ls * int64(2+d.r.Intn(5))
+	msKind := "n_segments"
 	if d.r.Chance(1, 8) {
 		ms = 0 // collector disabled
+		msKind = "0"
+		if d.r.Chance(1, 2) {
+			ms = -1 // what the configuration file says for "unlimited"
+			msKind = "minus_1"
+		}
+	} else if d.caseNo%5 == 1 {
+		// MaxSize BELOW one segment: every closed segment alone is over the budget
+		ms = vfutil.Pick(d.r, []int64{1, ls / 2, ls - 16 + 1})
+		if ms < 1 {
+			ms = 1
+		}
+		msKind = "below_one_segment"
 	}
+	d.s.Count(fmt.Sprintf("cfg_LogSize_%d", ls))
+	d.s.Count("cfg_MaxSize_" + msKind)
+	d.restarted = false
+	d.sticky = int64(100 + d.r.Intn(900))
 	d.opNew(ls, ms)
 	// a third of the cases starts with one or two directories left by an earlier process
 	if d.r.Chance(1, 3) {
@@ -1137,13 +1251,13 @@ func (d *vfDisk) runCase(nops int) {
 			d.observe()
 			if d.r.Chance(1, 3) {
 				size := 9 + d.r.Intn(40)
-				d.opRdbWriter(int64(100+d.r.Intn(900)), int64(size))
+				d.opRdbWriter(d.drawOff(), int64(size))
 				d.snapPlan = d.r.Bytes(size)
 				d.observe()
 				d.opRdbAppend(d.snapPlan)
 				d.observe()
 			}
-			off := int64(100 + d.r.Intn(900))
+			off := d.drawOff()
 			if d.haveSnap {
 				off = d.snapLeft
 			}
